@@ -109,6 +109,8 @@ func (o hop) Sexp() string {
 		return fmt.Sprintf("(%s %d)", o.kind, o.h)
 	case "memo":
 		return "(memo)"
+	case "reinit", "reinitx":
+		return "(" + o.kind + ")"
 	case "new":
 		return "(new " + o.t.Sexp() + " " + o.v.Sexp() + ")"
 	case "set":
@@ -135,6 +137,27 @@ func valueSexp(v view.View) string {
 
 func (s *hstate) exec(o hop) string {
 	return guard(func() string {
+		if o.kind == "reinit" {
+			// the zero-hash table installed again with the same function: nothing may change,
+			// no memo may be lost
+			tree.InitZeroHashes(pairOf(curCfg), 64)
+			return "OK"
+		}
+		if o.kind == "reinitx" {
+			// another hash configuration comes and goes: trees that are alive keep their nodes
+			// (they were built under the first one and are only looked at, with its function)
+			other := "alt"
+			if curCfg == "alt" {
+				other = "sha"
+			}
+			tree.InitZeroHashes(pairOf(other), 64)
+			ok := s.checkSnaps()
+			tree.InitZeroHashes(pairOf(curCfg), 64)
+			if !ok {
+				return "BAD"
+			}
+			return "OK"
+		}
 		if o.kind == "next" {
 			// the next element of iterator o.h, as a new handle
 			if o.h >= len(s.iters) {
